@@ -91,7 +91,7 @@ def parseOp (ks : Bytes) : Option Op :=
 `none` = not judged, `some none` = the motion fails -/
 def opTarget (b : Buf) (row col : Nat) (xtop xrows : Int) (mv : Nat) (arg : Option Nat) (n : Nat) (has : Bool) (charlast : Option (Nat × Nat) := none) : Option (Option (Kind × Nat × Nat)) :=
   let l := b.getD row []
-  let nb (r : Nat) : Nat := let l := b.getD r []; match (List.range l.length).find? (fun k => !isBlank (l.getD k 0)) with | some k => k | none => lastCol l
+  let nb (r : Nat) : Nat := let l := b.getD r []; match (List.range l.length).find? (fun k => !isBlank (l.getD k 0)) with | some k => k | none => l.length
   let ln (r : Int) : Option (Option (Kind × Nat × Nat)) := some (some (Kind.line, clampRow b r, 0))
   if mv == 104 || mv == 127 || mv == 8 then (if plainLine l then some (some (Kind.excl, row, col - min n col)) else none)
   else if mv == 32 then some (some (Kind.excl, row, min (col + n) l.length))
